@@ -154,6 +154,17 @@ func Expr(e Node) string {
 			return "(" + e["op"].(string) + Expr(e["lv"].(Node)) + ")"
 		}
 		return "(" + Expr(e["lv"].(Node)) + e["op"].(string) + ")"
+	case "getline":
+		out := "getline"
+		if lv := e["lv"].(Node); kind(lv) != "none" {
+			out += " " + Expr(lv)
+		}
+		if e["src"].(string) == "file" {
+			out += " < (" + Expr(e["name"].(Node)) + ")"
+		}
+		return "(" + out + ")"
+	case "close":
+		return "close(" + Expr(e["name"].(Node)) + ")"
 	case "re0":
 		return "/" + RegexSrc(e["re"].(Node)) + "/"
 	case "subst":
@@ -276,7 +287,7 @@ func Stmt(s Node, ind string) string {
 			block(nodes(s["b"]), ind) + "\n"
 	case "forin":
 		return ind + "for (" + s["v"].(string) + " in " + s["arr"].(string) + ") " + block(nodes(s["b"]), ind) + "\n"
-	case "break", "continue", "next", "getline":
+	case "break", "continue", "next", "getline", "nextfile":
 		return ind + kind(s) + "\n"
 	case "exit":
 		if kind(s["e"].(Node)) == "none" {
@@ -316,6 +327,14 @@ func Program(p Node) string {
 	for _, r := range nodes(p["rules"]) {
 		pat := r["pat"].(Node)
 		nobody, _ := r["nobody"].(bool)
+		if p2, ok := r["pat2"].(Node); ok && kind(p2) != "none" {
+			if nobody {
+				sb.WriteString(Bare(pat) + ", " + Bare(p2) + "\n")
+			} else {
+				sb.WriteString(Bare(pat) + ", " + Bare(p2) + " " + block(nodes(r["body"]), "") + "\n")
+			}
+			continue
+		}
 		switch {
 		case kind(pat) == "none":
 			sb.WriteString(block(nodes(r["body"]), "") + "\n")
